@@ -129,6 +129,21 @@ def run(ctx):
     if res[1].cls != "ok":
         ctx.violation("cli-accepts-good-domain", dict(document=short(good, 200)), "digest", str(res[1]))
 
+    badsets = [[STD[1], STD[0]], [STD[0], STD[0]], [("foo", "string")], [("chainId", "uint64")], [], [STD[0], STD[2], STD[2]], [STD[4], STD[3]]]
+    phrase = "test test test test test test test test test test test junk"
+    cr = []
+    for ms in badsets:
+        d = doc_of(ms).encode()
+        for args in (["hash", "typeddata", "-"], ["hash", "typeddata", "--message-hash", "-"], ["hash", "typeddata", "-m", "-"], ["sign", "--mnemonic", phrase, "typeddata", "-"]):
+            cr.append(dict(args=args, stdin=d, ms=ms))
+    d = doc_of([], with_domain_type=False).encode()
+    for args in (["hash", "typeddata", "-"], ["hash", "typeddata", "-m", "-"], ["sign", "--mnemonic", phrase, "typeddata", "-"]):
+        cr.append(dict(args=args, stdin=d, ms=None))
+    for rn, r in zip(cr, ctx.cli(cr)):
+        ctx.count("cli/malformed-domain")
+        ctx.distinct(("clidom", tuple(rn["args"]), str(rn["ms"])))
+        if r.cls != "error" or r.stdout != b"":
+            ctx.violation("cli-refuses-bad-domain", dict(op="hdwallet " + " ".join(a for a in rn["args"] if a != phrase), domain_type=rn["ms"]), "error, nothing hashed or signed", str(r)[:300])
     # ---------------- member type grammar ----------------
     strings = ["uint256", "uint8[]", "uint8[3][]", "Person[2][][7]", "bytes32", "bytes33", "bytes0", "bytes", "uint08", "uint+8", "uint0256",
                "int7", "bool[]", "string[1]", "Foo", "Foo1", "uint256x", "[]", "]", "a[", "a[]b", "x[-1]", "x[+2]", "x[02]",
